@@ -26,6 +26,7 @@ func Bubble(t *testing.T, f func() error) (err error) {
 	// it on its own goroutine so that this only ends that goroutine and the
 	// kernel can go on and report.
 	done := make(chan struct{})
+	returned := make(chan error, 1)
 	go func() {
 		defer close(done)
 		defer func() {
@@ -36,7 +37,12 @@ func Bubble(t *testing.T, f func() error) (err error) {
 				}
 				s := fmt.Sprint(r)
 				if strings.Contains(s, "deadlock: main bubble goroutine has exited") {
-					err = fmt.Errorf("harness: bubble leaked goroutines: %s", s)
+					// A case that has found a deadlock of the system leaves
+					// the deadlocked goroutines behind on purpose: its
+					// verdict stands.
+					if _, isV := err.(*Violation); !isV {
+						err = fmt.Errorf("harness: bubble leaked goroutines: %s", s)
+					}
 					return
 				}
 				err = Violationf("panic", "%v\n%s", r, debug.Stack())
@@ -49,10 +55,32 @@ func Bubble(t *testing.T, f func() error) (err error) {
 				}
 			}()
 			err = f()
+			returned <- err
 		})
 	}()
-	<-done
-	return err
+	select {
+	case <-done:
+		return err
+	case e := <-returned:
+		// f is over; the bubble is waiting for its goroutines.  Goroutines of
+		// a deadlocked system may never exit, nor block durably: a violation
+		// does not wait for them for more than a moment.
+		grace := 30 * time.Second
+		if _, isV := e.(*Violation); isV {
+			grace = 2 * time.Second
+		}
+		tm := time.NewTimer(grace)
+		defer tm.Stop()
+		select {
+		case <-done:
+			return err
+		case <-tm.C:
+			if e == nil {
+				e = fmt.Errorf("harness: bubble did not wind down within %v", grace)
+			}
+			return e
+		}
+	}
 }
 
 // Wait blocks until every other goroutine of the bubble is durably blocked.
